@@ -7,6 +7,7 @@ import (
 	"fmt"
 	"strings"
 	"sync"
+	"sync/atomic"
 	"testing"
 	"testing/synctest"
 	"time"
@@ -86,11 +87,11 @@ func (w *treeWorld) hook(component, format string) {
 	if time.Now().Year() > 2200 {
 		panic("virtual time ran away: " + time.Now().String() + " at " + component + " " + format)
 	}
+	n := atomic.AddUint64(&w.hookN, 1)
 	if !w.perturb {
 		return
 	}
-	w.hookN++
-	h := w.hookN*0x9E3779B97F4A7C15 ^ uint64(len(component))*31 ^ uint64(len(format))
+	h := n*0x9E3779B97F4A7C15 ^ uint64(len(component))*31 ^ uint64(len(format))
 	h ^= h >> 29
 	if h%7 == 0 {
 		time.Sleep(time.Duration(1+h%1000) * time.Microsecond)
@@ -99,13 +100,7 @@ func (w *treeWorld) hook(component, format string) {
 
 // wait reaches quiescence: everything durably blocked, and no goroutine merely asleep in a
 // perturbation hook (virtual time is advanced a little to flush those).
-func (w *treeWorld) wait() {
-	synctest.Wait()
-	for i := 0; i < 3; i++ {
-		time.Sleep(20 * time.Millisecond)
-		synctest.Wait()
-	}
-}
+func (w *treeWorld) wait() { settle(&w.hookN) }
 
 func (w *treeWorld) srvEvent() {
 	k := kv.Pick(w.r, treeKeys)
